@@ -136,6 +136,10 @@ theorem function_entry_rampstep (env : Env K) (hE : IsExp env.E) (a : K) (ha : 0
   try rw [show (-env.s / a) = -(env.s * (1 / a)) by field_simp]
   try (congr 1; first | (field_simp; ring1) | field_simp | ring1)
 
+/-- the table is only used for a positive scale: `function` refuses a time-reversed argument (GENERATED flag; the model's
+    `lcapyTerm` follows it; a regression of fix C09-F26 breaks exactly this) -/
+theorem fn_rejects_negative_scale : Gen.fnRejectsNegScale = true := by decide
+
 /-- the unit entries themselves, e.g. `L{tri(t)} = 1/s − (1 − e^{−s})/s²`, and the similarity step -/
 theorem function_entries_from_unit (env : Env K) (hE : IsExp env.E) (a : K) (ha : 0 < a) (hs : env.s ≠ 0) :
     specValue env (.prod 1 [.fn .tri a 0])
